@@ -32,10 +32,6 @@ class Str(Expression):
     def constantize(self):
         return repr(self.value)
 
-    def _skips_ignored(self):
-        # The empty string matches without skipping anything.
-        return bool(self.value) and self.skip_ignored
-
     def _compile(self, out, flags):
         if not self.value:
             out += STATUS << True
